@@ -84,6 +84,10 @@ class Duration(ModelObject):
 
     def pv_binop(self, cx, op, other):
         if op == "/":
+            if isinstance(self.seconds, int) and isinstance(other, (int, float)):
+                from fractions import Fraction
+
+                return Fraction(self.seconds) / Fraction(other)  # concrete mode (encoder validation)
             o = V.to_z3(other)
             return z3.ToReal(self.seconds) / (z3.ToReal(o) if z3.is_int(o) else o)
         raise Unsupported("timedelta operator")
